@@ -1,8 +1,8 @@
 (* Correspondence runner for Model/AllocMaps.v: one case = one history on a real
    allocator.Allocator.  After every operation the harness dumps the ACTUAL
    contents of allocated, sharingKeyForIP, portsInUse, servicesOnIP, poolIPsInUse,
-   poolIPV4InUse, poolIPV6InUse (sorted), CountersForPool of every pool and a few
-   checkSharing probes; the concrete model, fed the same operations (allocation
+   poolIPV4InUse, poolIPV6InUse (sorted), Pool()/IPs() of every service and
+   CountersForPool of every pool; the concrete model, fed the same operations (allocation
    results as checked choices), must hold the same maps.
 
    Maps are compared as maps: every binding of one side is looked up in the other.
@@ -14,19 +14,24 @@ From Verif Require Export Model.AllocMaps.
 Import ListNotations.
 Local Open Scope N_scope.
 
-Record mprobe := { mp_svc : svc; mp_ip : ip; mp_ports : list port; mp_key : skey; mp_ok : bool }.
+(* white-box part: [None] = the harness could not read that field of the
+   Allocator (it is read through reflection; an absent field or an unexpected
+   shape skips the comparison of that map).  Black-box part, always present:
+   Pool()/IPs() of every service of the universe, CountersForPool, the result of
+   the operation (probes are ordinary Assign+Unassign operations of a probe
+   service inside the history). *)
 Record mdump := {
-  d_alloc : list (svc * alloc);
-  d_key : list (ip * skey);
-  d_ports : list (ip * list (port * svc));
-  d_svcs : list (ip * list svc);
-  d_use : list (poolid * list (ip * Z));
-  d_use4 : list (poolid * list (ip * Z));
-  d_use6 : list (poolid * list (ip * Z));
-  d_counters : list (poolid * counters);
-  d_probes : list mprobe }.
+  d_bb : list (svc * (poolid * list ip));
+  d_alloc : option (list (svc * alloc));
+  d_key : option (list (ip * skey));
+  d_ports : option (list (ip * list (port * svc)));
+  d_svcs : option (list (ip * list svc));
+  d_use : option (list (poolid * list (ip * Z)));
+  d_use4 : option (list (poolid * list (ip * Z)));
+  d_use6 : option (list (poolid * list (ip * Z)));
+  d_counters : list (poolid * counters) }.
 Record mobs := { mo_res : option (list ip); mo_dump : mdump }.
-Record mcase := { mc_id : N; mc_steps : list (op * mobs) }.
+Record mcase := { mc_id : N; mc_universe : list svc; mc_steps : list (op * mobs) }.
 
 (* ---------- equality of observables ---------- *)
 Definition skey_eqb (a b : skey) : bool := (sharing a =? sharing b) && (backend a =? backend b).
@@ -66,17 +71,26 @@ Definition res_ok (r : res) (o : option (list ip)) : bool :=
   | _, _ => false
   end.
 
+Definition opt_ok {A} (f : A -> bool) (o : option A) : bool := match o with None => true | Some x => f x end.
+
+Definition bb_ok (m : mstate) (d : mdump) (s : svc) : bool :=
+  match aget N.eqb s (m_alloc m), aget N.eqb s (d_bb d) with
+  | None, None => true
+  | Some al, Some (pn, ips) => (a_pool al =? pn) && ips_eqb (a_ips al) ips
+  | _, _ => false
+  end.
+
 (* which observable differs: 0 = none *)
-Definition dump_diff (m : mstate) (d : mdump) : N :=
-  if negb (map_eqb N.eqb alloc_eqb (m_alloc m) (d_alloc d)) then 1
-  else if negb (map_eqb ip_eqb skey_eqb (m_key m) (d_key d)) then 2
-  else if negb (map_eqb ip_eqb (map_eqb port_eqb N.eqb) (drop_empty (m_ports m)) (drop_empty (d_ports d))) then 3
-  else if negb (map_eqb ip_eqb set_eqb (drop_empty (m_svcs m)) (drop_empty (d_svcs d))) then 4
-  else if negb (use_eqb (m_use m) (d_use d)) then 5
-  else if negb (use_eqb (m_use4 m) (d_use4 d)) then 6
-  else if negb (use_eqb (m_use6 m) (d_use6 d)) then 7
+Definition dump_diff (universe : list svc) (m : mstate) (d : mdump) : N :=
+  if negb (opt_ok (map_eqb N.eqb alloc_eqb (m_alloc m)) (d_alloc d)) then 1
+  else if negb (opt_ok (map_eqb ip_eqb skey_eqb (m_key m)) (d_key d)) then 2
+  else if negb (opt_ok (fun l => map_eqb ip_eqb (map_eqb port_eqb N.eqb) (drop_empty (m_ports m)) (drop_empty l)) (d_ports d)) then 3
+  else if negb (opt_ok (fun l => map_eqb ip_eqb set_eqb (drop_empty (m_svcs m)) (drop_empty l)) (d_svcs d)) then 4
+  else if negb (opt_ok (use_eqb (m_use m)) (d_use d)) then 5
+  else if negb (opt_ok (use_eqb (m_use4 m)) (d_use4 d)) then 6
+  else if negb (opt_ok (use_eqb (m_use6 m)) (d_use6 d)) then 7
   else if negb (forallb (fun e => counters_eqb (m_counters_for m (fst e)) (snd e)) (d_counters d)) then 8
-  else if negb (forallb (fun p => Bool.eqb (m_check_sharing m (mp_svc p) (mp_ip p) (mp_ports p) (mp_key p)) (mp_ok p)) (d_probes d)) then 9
+  else if negb (forallb (bb_ok m d) universe) then 9
   else if m_panic m then 10
   else 0.
 
@@ -84,20 +98,20 @@ Definition normalize (o : op) (ob : option (list ip)) : option (list ip) :=
   match o with OUnassign _ | OSetPools _ => Some [] | _ => ob end.
 
 (* first disagreement: (step index, observable) *)
-Fixpoint first_bad (m : mstate) (steps : list (op * mobs)) (i : N) : option (N * N) :=
+Fixpoint first_bad (u : list svc) (m : mstate) (steps : list (op * mobs)) (i : N) : option (N * N) :=
   match steps with
   | [] => None
   | (o, ob) :: rest =>
       let '(m', r) := m_step m o in
       if negb (res_ok r (normalize o (mo_res ob))) then Some (i, 11)
-      else match dump_diff m' (mo_dump ob) with
-           | 0 => first_bad m' rest (i + 1)
+      else match dump_diff u m' (mo_dump ob) with
+           | 0 => first_bad u m' rest (i + 1)
            | k => Some (i, k)
            end
   end.
 
 Definition case_ok (c : mcase) : bool :=
-  match first_bad m_init (mc_steps c) 0 with None => true | Some _ => false end.
+  match first_bad (mc_universe c) m_init (mc_steps c) 0 with None => true | Some _ => false end.
 Definition mismatches (cs : list mcase) : list N := map mc_id (filter (fun c => negb (case_ok c)) cs).
 Definition where_bad (cs : list mcase) : list (N * option (N * N)) :=
-  map (fun c => (mc_id c, first_bad m_init (mc_steps c) 0)) (filter (fun c => negb (case_ok c)) cs).
+  map (fun c => (mc_id c, first_bad (mc_universe c) m_init (mc_steps c) 0)) (filter (fun c => negb (case_ok c)) cs).
